@@ -2,6 +2,8 @@ package main
 
 import (
 	"fmt"
+	"go/ast"
+	"regexp"
 	"go/types"
 	"sort"
 	"strings"
@@ -41,7 +43,44 @@ func (x *Exec) newTopFrame(fn *ssa.Function, st *State) *Frame {
 	return fr
 }
 
+// assertAxioms adds the axioms of the spec files whose ghost functions are used in this VC.
+func (x *Exec) assertAxioms() {
+	for round := 0; round < 3; round++ {
+		added := false
+		for i, ax := range x.db.Axioms {
+			key := fmt.Sprintf("axiom#%d", i)
+			if x.vc.declared[key] {
+				continue
+			}
+			used := false
+			for _, m := range ghostNameRE.FindAllStringSubmatch(ax.Text, -1) {
+				if x.vc.ufuns["uf_"+sanitize(m[1])] {
+					used = true
+				}
+			}
+			if !used {
+				continue
+			}
+			x.vc.declared[key] = true
+			added = true
+			env := &SpecEnv{x: x, names: map[string]specVal{}, st: &State{reach: "true", cells: map[*ssa.Alloc]string{}, mem: map[string]string{}, ghost: map[string]string{}, dflags: map[*ssa.Defer]string{}}}
+			if pk, ok := x.p.AllPkgs[x.db.AxiomPkg[i]]; ok {
+				env.pkg = pk.Types
+			}
+			env.old = env.st
+			x.vc.assert(x.evalBool(env, ax.Expr))
+			x.usedExterns["axiom: "+ax.Text] = true
+		}
+		if !added {
+			break
+		}
+	}
+}
+
+var ghostNameRE = regexp.MustCompile(`\$(\w+)`)
+
 func (x *Exec) finishUnit(u *Unit, t0 time.Time) *Unit {
+	x.assertAxioms()
 	u.vc = x.vc
 	u.Obls = x.vc.obls
 	u.Unsupported = sortedKeys(x.unsupported)
@@ -108,6 +147,37 @@ func verifyFunc(p *Prog, db *ContractDB, fc *FuncContract, prop string) (u *Unit
 	}
 	for _, r := range fc.Assume {
 		x.assume(st, x.evalBool(env, r.Expr))
+	}
+	for _, ow := range fc.Owns {
+		sel, ok := ow.Expr.(*ast.SelectorExpr)
+		if !ok {
+			x.unsupp("spec: owns needs <ptr>.<field>: %s", ow.Text)
+			continue
+		}
+		base := x.evalSpec(env, sel.X)
+		pt, ok := base.typ.Underlying().(*types.Pointer)
+		if !ok {
+			x.unsupp("spec: owns: %s is not a pointer", exprString(sel.X))
+			continue
+		}
+		stt, ok := pt.Elem().Underlying().(*types.Struct)
+		if !ok {
+			x.unsupp("spec: owns: %s does not point to a struct", exprString(sel.X))
+			continue
+		}
+		found := false
+		for i := 0; i < stt.NumFields(); i++ {
+			if stt.Field(i).Name() == sel.Sel.Name {
+				key := fieldMemKey(pt.Elem(), i)
+				x.memGet(st, key, x.fieldArraySort(stt.Field(i).Type()))
+				x.owned = append(x.owned, ownedLoc{ptr: base.term, key: key})
+				x.vc.note("owns " + ow.Text + ": callees that are not handed the object do not write this field")
+				found = true
+			}
+		}
+		if !found {
+			x.unsupp("spec: owns: no field %s", sel.Sel.Name)
+		}
 	}
 	x.reachOf(st)
 	fr.entry = st.clone()
@@ -299,7 +369,7 @@ func sweepTargets(p *Prog, db *ContractDB, prop string) []*ssa.Function {
 					continue
 				}
 				for _, cc := range keys[k] {
-					if callsiteInScope(cc, pkgPath) {
+					if callsiteInScope(cc, pkgPath) && (cc.InFunc == nil || cc.InFunc.MatchString(shortFn(fn))) {
 						found = true
 					}
 				}
@@ -307,7 +377,30 @@ func sweepTargets(p *Prog, db *ContractDB, prop string) []*ssa.Function {
 		}
 		if found {
 			out = append(out, fn)
+			// the enclosing function: a closure that is called directly is reached by inlining
+			if o := outermost(fn); o != fn {
+				dup := false
+				for _, f := range out {
+					if f == o {
+						dup = true
+					}
+				}
+				if !dup {
+					out = append(out, o)
+				}
+			}
 		}
+	}
+	{
+		seen := map[*ssa.Function]bool{}
+		var ded []*ssa.Function
+		for _, f := range out {
+			if !seen[f] {
+				seen[f] = true
+				ded = append(ded, f)
+			}
+		}
+		out = ded
 	}
 	sort.Slice(out, func(i, j int) bool { return out[i].String() < out[j].String() })
 	return out
